@@ -181,11 +181,14 @@ func Generate(repo, mode, outDir, srcDir string) (*Info, error) {
 		}
 		snapPkgs = append(snapPkgs, pk)
 		var b bytes.Buffer
-		fmt.Fprintf(&b, "package %s\n\nimport verifFmt \"fmt\"\n\n", pk.Name)
-		fmt.Fprintf(&b, "// VerifSnapshot renders every package-level variable of this package (generated by vmc/instr).\n")
-		fmt.Fprintf(&b, "func VerifSnapshot() string {\n\treturn verifFmt.Sprintf(%q", strings.Repeat("%+v|", len(names))+"-")
-		for _, n := range names {
-			fmt.Fprintf(&b, ", %s", n)
+		fmt.Fprintf(&b, "package %s\n\nimport verifDeep \"github.com/nulab/autog/internal/verifrt\"\n\n", pk.Name)
+		fmt.Fprintf(&b, "// VerifSnapshot renders everything reachable from the package-level variables of this package: pointers followed,\n// slices up to their capacity (generated by vmc/instr).\n")
+		fmt.Fprintf(&b, "func VerifSnapshot() string {\n\treturn verifDeep.Deep(")
+		for i, n := range names {
+			if i > 0 {
+				fmt.Fprintf(&b, ", ")
+			}
+			fmt.Fprintf(&b, "&%s", n)
 		}
 		fmt.Fprintf(&b, ")\n}\n\n")
 		for _, n := range append(append([]string(nil), names...), syncNames...) {
@@ -479,6 +482,50 @@ func Generate(repo, mode, outDir, srcDir string) (*Info, error) {
 					continue
 				}
 				funcName = fd.Name.Name
+				if mode == "sched" && ip == modPath && fd.Recv == nil && fd.Name.Name == "Layout" {
+					// the entry point itself: a pure scheduling point (no data access) before every statement that is not nested
+					// in a loop — calls may be interleaved at the granularity of Layout's own steps (options applied,
+					// graph populated, sizes applied, components processed), not only where a package-level variable is
+					// mentioned: state shared through memory that is merely REACHABLE from a package-level variable shows as a
+					// result that differs from the solo result
+					var yields func(list []ast.Stmt, depth int) []ast.Stmt
+					var inner func(s ast.Stmt, depth int)
+					yields = func(list []ast.Stmt, depth int) []ast.Stmt {
+						var out []ast.Stmt
+						for _, s := range list {
+							if depth == 0 {
+								out = append(out, &ast.ExprStmt{X: &ast.CallExpr{Fun: sel("verifrt", "Access"),
+									Args: []ast.Expr{&ast.BasicLit{Kind: token.STRING, Value: `"yield:autog.Layout"`}, &ast.BasicLit{Kind: token.INT, Value: "3"}}}})
+								info.AccessSites++
+								changed = true
+							}
+							inner(s, depth)
+							out = append(out, s)
+						}
+						return out
+					}
+					inner = func(s ast.Stmt, depth int) {
+						switch st := s.(type) {
+						case *ast.BlockStmt:
+							st.List = yields(st.List, depth)
+						case *ast.IfStmt:
+							st.Body.List = yields(st.Body.List, depth)
+							if st.Else != nil {
+								inner(st.Else, depth)
+							}
+						case *ast.ForStmt:
+							st.Body.List = yields(st.Body.List, depth+1)
+						case *ast.RangeStmt:
+							st.Body.List = yields(st.Body.List, depth+1)
+						case *ast.SwitchStmt:
+							for _, c := range st.Body.List {
+								cc := c.(*ast.CaseClause)
+								cc.Body = yields(cc.Body, depth)
+							}
+						}
+					}
+					fd.Body.List = yields(fd.Body.List, 0)
+				}
 				ast.Inspect(fd.Body, func(n ast.Node) bool {
 					switch b := n.(type) {
 					case *ast.BlockStmt:
